@@ -198,12 +198,37 @@ func c03Eval(r *hist.Runner, sc *hist.Scenario, h []hist.Event, res *Result) ([]
 
 func init() {
 	spec := &HSpec{ID: "C03", Scenarios: c03Scenarios, Eval: c03Eval}
+	defer func() {
+		// the single-replica program part (c03_prog.go) runs first: it is cheap
+		c := Registry["C03"]
+		runH, reproH, minH := c.Run, c.Reproduce, c.Minimise
+		c.Run = func(env *Env) *Result {
+			res := NewResult()
+			c03Programs(env, res)
+			res.Merge(runH(env))
+			return res
+		}
+		c.Reproduce = func(f *Found) (bool, error) {
+			if f.Hist == nil && f.Case != nil {
+				return c03ReproduceProgram(f)
+			}
+			return reproH(f)
+		}
+		c.Minimise = func(f *Found) *Found {
+			if f.Hist == nil {
+				return f
+			}
+			return minH(f)
+		}
+	}()
 	registerH(spec, &Check{
 		Level: "exploration",
 		Rule: "every normal-form history of <=K edits and <=Y syncs over garbage-producing/-referencing edit kinds (pairs per data type), " +
 			"executed twice on the real implementation: GC on (client GC on pulls, server GC before snapshots) and GC off " +
 			"(document.WithDisableGC on every replica + SnapshotDisableGC); oracle: no sync/rebuild error in either world, replicas converge, " +
-			"content(GC on)==content(GC off); non-trivial = two concurrent edits by different clients",
+			"content(GC on)==content(GC off); non-trivial = two concurrent edits by different clients; " +
+			"plus, on a single replica: ALL programs of <=4 (thorough 5) steps over every editing call kind x position class of a data type (the C07 templates) and garbage collections with the document's own vector between them, " +
+			"run on two real documents (with / without the collections): a call fails in one iff in the other, content equal after every step, index/path view agrees with the reference model in one iff in the other, Root()==Marshal(), GarbageLen()==0 after a collection",
 		Assume:      []string{"memdb backend", "small-scope bounds as listed per scenario name", "map iteration order uncontrolled; violations re-run 5x"},
 		QuickBudget: 300 * time.Second,
 	})
